@@ -42,9 +42,9 @@ NCONFIG = {"quick": 16, "thorough": 32}
 
 
 def sigkey(spec, r):
-    m = spec["methods"][r[0]]
-    prio = m.get("prio", 0) if len(r) < 2 or r[1] is None else r[1]
-    return json.dumps([m["params"], prio])
+    from ..common import sigkey as _sk
+
+    return _sk(spec, r[0], r[1] if len(r) > 1 else None)
 
 
 def perm_regs(rng, spec, regs):
@@ -61,7 +61,13 @@ def perm_regs(rng, spec, regs):
 
 
 def make_extras(rng, spec, regs, n):
+    """Methods that are inapplicable to every corpus call by construction.
+
+    x<i>: first parameter annotated with KX, a class unrelated to every corpus argument.
+    k<i>: types drawn like any other method's (so they may well cover corpus arguments) but with a
+          required keyword-only parameter ``kx`` that no corpus call passes."""
     gen.extra_class(spec, "KX")
+    names = [c[0] for c in spec["classes"] if c[0] != "KX"]
     out = []
     for i in range(n):
         src = spec["methods"][rng.choice(regs)[0]]
@@ -70,6 +76,19 @@ def make_extras(rng, spec, regs, n):
         mid = f"x{i}"
         spec["methods"][mid] = {"params": params, "prio": rng.choice([0, 0, 5, -5]),
                                 "body": [rng.choice(["leaf", "next"])]}
+        out.append(mid)
+    for i in range(2):
+        src = spec["methods"][rng.choice(regs)[0]]
+        # full clone (same arity, names, defaults and keyword-only parameters: which call shapes the
+        # entry point accepts is documented as a property of the whole method set) ...
+        params = json.loads(json.dumps(src["params"]))
+        for p, fl in zip([q for q in params if q[1] != "kw"], spec["meta"]["flavour"]):
+            if fl == "cls":
+                p[2] = ["c", rng.choice(names)] if rng.random() < 0.8 else ["o"]
+        # ... plus one more required keyword that no corpus call passes
+        params.append(["kx", "kw", ["o"], False])
+        mid = f"k{i}"
+        spec["methods"][mid] = {"params": params, "prio": 0, "body": ["leaf"]}
         out.append(mid)
     return out
 
@@ -148,7 +167,8 @@ def execute(scen):
         violation = {"clause": "outcome changes with irrelevant context", "dims": dims,
                      "call_index": i, "call": fam["corpus"][i], "observed": vec[i],
                      "reference": ref[i], "symptom": symptom(vec[i], ref[i]),
-                     "sites": sorted({a[0] for a in applied}), "nperms": len(applied)}
+                     "sites": sorted({a[0] for a in applied}), "nperms": len(applied),
+                     "extra_kinds": sorted({m[0] for m in (cfg.get("extras") or [])})}
     digest = stable_hash([vec, ref, applied])
     return {"violation": violation, "digest": digest, "applied": applied, "effective": eff,
             "nontrivial": bool(applied) or bool(cfg.get("regs")) or bool(cfg.get("extras"))}
@@ -372,6 +392,7 @@ def signature(scen, v):
     return {"clause": v["clause"], "dims": "+".join(v.get("dims") or []),
             "patterns": "|".join(nonmirror_pattern(scen, v)), "symptom": v.get("symptom"),
             "sites": "+".join(v.get("sites") or []),
+            "extra_kinds": "+".join(v.get("extra_kinds") or []),
             "dependent_candidates_tied": tie_pattern(scen, v)}
 
 
